@@ -1410,3 +1410,21 @@ val norm_C11 : term -> term
 val holds_C11 : vt -> vt -> bool
 
 val holds_C14 : line list -> line list -> line list -> bool
+
+type left_loc =
+| InView of nat
+| InScrollback
+| Discarded
+| Stays
+
+val wrap_left : term -> left_loc
+
+val line_at : term -> left_loc -> line option
+
+val wrap_due : term -> func -> bool
+
+val kf1_C04 : vt -> func -> bool
+
+val holds_C04_wrapmark : vt -> func -> vt -> bool
+
+val wrapmark_lost : vt -> func -> vt -> bool
